@@ -34,7 +34,14 @@ pub enum CandKind {
 #[derive(Clone, Debug, Serialize, Deserialize, PartialEq, Eq)]
 pub enum Step {
     Advance(Dt),
-    Rotate { bypass: bool, operator_auth: bool, cand: CandKind },
+    Rotate {
+        bypass: bool,
+        operator_auth: bool,
+        cand: CandKind,
+        /// the proof comes from the previous (still retained) set instead of the latest one
+        #[serde(default)]
+        by_previous_set: bool,
+    },
 }
 
 #[derive(Clone, Debug, Serialize, Deserialize)]
@@ -59,9 +66,10 @@ fn step() -> impl Strategy<Value = Step> {
         3 => (
             prop_oneof![3 => Just(false), 1 => Just(true)],
             prop_oneof![3 => Just(true), 1 => Just(false)],
-            prop_oneof![6 => Just(CandKind::Valid), 1 => Just(CandKind::InvalidThresholdZero), 1 => Just(CandKind::DuplicateOfLatest)]
+            prop_oneof![6 => Just(CandKind::Valid), 1 => Just(CandKind::InvalidThresholdZero), 1 => Just(CandKind::DuplicateOfLatest)],
+            prop_oneof![5 => Just(false), 1 => Just(true)]
         )
-            .prop_map(|(bypass, operator_auth, cand)| Step::Rotate { bypass, operator_auth, cand }),
+            .prop_map(|(bypass, operator_auth, cand, by_previous_set)| Step::Rotate { bypass, operator_auth, cand, by_previous_set }),
     ]
 }
 
@@ -71,7 +79,7 @@ impl Property for C09 {
         "C09"
     }
     fn rule(&self) -> &'static str {
-        "proptest: minimum delay in {0,1,10,3600,86400,2^63,u64::MAX}, deployment timestamp in {0,1,1.7e9}, history of <=12 (quick) / <=20 (thorough) steps: Advance (0, small, to last_success+delay-1/+0/+1, by delay-1/+0/+1) and Rotate (bypass?, operator authorised?, candidate valid / invalid / duplicate) with the proof always from the newest set; the harness owns the forward-moving ledger clock; the ledger sequence number advances with it (one ledger per 5 s, bounded). Oracle: clock model last = time of the last successful rotation (deployment counts); non-bypass succeeds iff now-last >= delay and the candidate is acceptable; bypass needs operator authorisation and ignores the delay; success restarts the clock, failure leaves it (snapshot equality + later behaviour). non-trivial = delay > 0 and a non-bypass attempt lands within +-1s of the boundary, or a bypass success is followed by a non-bypass attempt"
+        "proptest: minimum delay in {0,1,10,3600,86400,2^63,u64::MAX}, deployment timestamp in {0,1,1.7e9}, history of <=12 (quick) / <=20 (thorough) steps: Advance (0, small, to last_success+delay-1/+0/+1, by delay-1/+0/+1) and Rotate (bypass?, operator authorised?, candidate valid / invalid / duplicate) with the proof from the newest set or, sometimes, from the previous one (retention 1); the harness owns the forward-moving ledger clock; the ledger sequence number advances with it (one ledger per 5 s, bounded). Oracle: clock model last = time of the last successful rotation (deployment counts); non-bypass succeeds iff now-last >= delay and the candidate is acceptable; bypass needs operator authorisation and ignores the delay; success restarts the clock, failure leaves it (snapshot equality + later behaviour). non-trivial = delay > 0 and a non-bypass attempt lands within +-1s of the boundary, or a bypass success is followed by a non-bypass attempt"
     }
     fn cases(&self, tier: Tier) -> u64 {
         tier.pick(20000, 300000)
@@ -81,11 +89,11 @@ impl Property for C09 {
         (0u8..7, 0u8..3, proptest::collection::vec(step(), 1..=n)).prop_map(|(delay, deploy_ts, steps)| Case { delay, deploy_ts, steps }).boxed()
     }
     fn fixed_cases(&self, _tier: Tier) -> Vec<Case> {
-        let r = |bypass| Step::Rotate { bypass, operator_auth: true, cand: CandKind::Valid };
+        let r = |bypass| Step::Rotate { bypass, operator_auth: true, cand: CandKind::Valid, by_previous_set: false };
         vec![
             Case { delay: 2, deploy_ts: 2, steps: vec![Step::Advance(Dt::ToBoundary(-1)), r(false), Step::Advance(Dt::ToBoundary(0)), r(false), r(false), Step::Advance(Dt::ToBoundary(1)), r(false)] },
             Case { delay: 3, deploy_ts: 1, steps: vec![r(true), Step::Advance(Dt::ToBoundary(-1)), r(false), Step::Advance(Dt::Small(1)), r(false)] },
-            Case { delay: 3, deploy_ts: 0, steps: vec![Step::Advance(Dt::Delay(0)), Step::Rotate { bypass: false, operator_auth: true, cand: CandKind::DuplicateOfLatest }, r(false), r(false)] },
+            Case { delay: 3, deploy_ts: 0, steps: vec![Step::Advance(Dt::Delay(0)), Step::Rotate { bypass: false, operator_auth: true, cand: CandKind::DuplicateOfLatest, by_previous_set: false }, r(false), r(false)] },
         ]
     }
 
@@ -96,6 +104,7 @@ impl Property for C09 {
         env.ledger().set_timestamp(t0);
         let g = |k: u16| SetGen { seeds: vec![k * 2, k * 2 + 1], w: vec![WClass::One, WClass::Small(1)], t: TClass::Total };
         let mut latest = g(0).build(0);
+        let mut previous: Option<BuiltSet> = None;
         let gw = deploy_gateway(&env, [5; 32], d, 1, &[latest.clone()]).map_err(|e| format!("setup: {}", e))?;
         let mut now = t0;
         let mut last = t0;
@@ -138,7 +147,7 @@ impl Property for C09 {
                     now = new_now;
                     env.ledger().set_timestamp(now);
                 }
-                Step::Rotate { bypass, operator_auth, cand } => {
+                Step::Rotate { bypass, operator_auth, cand, by_previous_set } => {
                     let candidate = match cand {
                         CandKind::Valid => g(n_sets).build(n_sets as u8),
                         CandKind::InvalidThresholdZero => {
@@ -151,7 +160,13 @@ impl Property for C09 {
                     let cand_ok = matches!(cand, CandKind::Valid);
                     let elapsed = now - last;
                     let delay_ok = elapsed >= d;
-                    let expect_ok = cand_ok && if *bypass { *operator_auth } else { delay_ok };
+                    // proof from the previous set (retention is 1): only a bypass authorised by the operator may use it
+                    let use_prev = *by_previous_set && previous.is_some();
+                    let prover = if use_prev { previous.clone().unwrap() } else { latest.clone() };
+                    if use_prev {
+                        cx.label("proof_from_previous_set");
+                    }
+                    let expect_ok = cand_ok && if *bypass { *operator_auth } else { delay_ok && !use_prev };
                     if !*bypass && d > 0 {
                         let near = (elapsed as i128 - d as i128).abs() <= 1;
                         if near {
@@ -163,7 +178,7 @@ impl Property for C09 {
                         nontrivial = true;
                         cx.label("non_bypass_after_bypass");
                     }
-                    let proof = latest.proof(&env, &digest(&gw.domain, &latest.hash(), &candidate.rotation_data_hash()), latest.full_mask());
+                    let proof = prover.proof(&env, &digest(&gw.domain, &prover.hash(), &candidate.rotation_data_hash()), prover.full_mask());
                     let client = if *operator_auth { gw.client.mock_all_auths() } else { gw.client.mock_auths(&[]) };
                     let snap0 = snapshot(&env);
                     let r = client.try_rotate_signers(&candidate.to_soroban(&env), &proof, bypass);
@@ -172,6 +187,7 @@ impl Property for C09 {
                         cx.count("must_succeed");
                         ensure_p!(ok, "step {}: rotation refused: delay {}, elapsed since last success {}, bypass {}, operator auth {}: {:?}", k, d, elapsed, bypass, operator_auth, r);
                         last = now;
+                        previous = Some(latest.clone());
                         latest = candidate;
                         n_sets += 1;
                         if *bypass {
